@@ -50,13 +50,22 @@ def proj_of(facts, fn_term, outer_caps=None):
 FALLIBLE = ["Option::ok_or_else", "Option::ok_or", "Try::branch", "Option::map", "Result::map", "Option::copied", "Option::cloned", "Result::ok", "Option::as_ref", "Option::as_deref"]
 
 
-def _unwrap_payload(r, stop=None):
+def _unwrap_payload(r, stop=None, body=None):
     """Strip what only carries a looked-up value to where it is used: `x?`, `.ok_or_else(..)`, `.map(as_ref)`, the payload of Some/Ok/Continue
-    (never past `stop`, the loop element / closure argument itself)."""
+    (never past `stop`, the loop element / closure argument itself).  With `body`, a local that joins `Ok(x)` with error returns (the result of an
+    inlined fallible helper: `match map.get(k) { Some(v) => Ok(v), None => Err(..) }`) stands for x."""
     for _ in range(12):
         r = peel(r, transparent=ID_CALLS)
         if stop is not None and (r == stop or peel(r) == stop):
             return r
+        if body is not None and isinstance(r, tuple) and len(r) == 2 and r[0] == "var":
+            alts = body.var_alts(r[1])
+            oks = [a for a in alts if isinstance(a, tuple) and a and a[0] == "agg" and (a[2].endswith("Result::Ok") or a[2].endswith("Option::Some")) and a[3]]
+            rest = [a for a in alts if a not in oks]
+            if len(oks) == 1 and rest and all((isinstance(a, tuple) and a and a[0] == "agg" and (a[2].endswith("Result::Err") or a[2].endswith("Option::None")))
+                                              or is_call(peel(a, transparent=[]), "FromResidual::from_residual") for a in rest):
+                r = oks[0][3][0]
+                continue
         if isinstance(r, tuple) and len(r) == 3 and r[0] == "field" and str(r[2]) == "0" and isinstance(r[1], tuple) and r[1][0] == "downcast" and r[1][2] in ("Some", "Ok", "Continue"):
             r = r[1][1]
             continue
@@ -67,9 +76,9 @@ def _unwrap_payload(r, stop=None):
     return r
 
 
-def _proj_from(r, arg, caps, facts):
+def _proj_from(r, arg, caps, facts, body=None):
     """r expressed as a projection of `arg` (closure parameter or loop element)."""
-    r = _unwrap_payload(r, arg)
+    r = _unwrap_payload(r, arg, body)
     if r == arg or peel(r) == arg:
         return ()
     # map[arg] / map.get(arg).unwrap()
@@ -142,9 +151,9 @@ def iter_seq(b, t, depth=0):
     return None
 
 
-def _loop_of(b, site):
-    """(next call, iterator term) of the innermost loop whose element reaches an operand of `site`, else None."""
-    ops = [u for a in site.args for u in subterms(a)]
+def _loop_of(b, site, extra=()):
+    """(next call, iterator term) of the innermost loop whose element reaches an operand of `site` (or one of the `extra` terms), else None."""
+    ops = [u for a in list(site.args) + list(extra) for u in subterms(a)]
     best = None
     for c in b.calls_to("Iterator::next"):
         if c.result_term() not in ops:
@@ -163,7 +172,7 @@ def sink_seq(b, sites, value_of, resolve_vec=True):
     """Sequence fed into a sink by the call sites `sites` (all on one sink object), in dominance order.  value_of(site) -> the value operand."""
     # order of the sites in time: a site inside a loop is placed by the header of that loop (the body of a loop that may run zero times dominates nothing after it)
     def anchor(c):
-        nx_ = _loop_of(b, c)
+        nx_ = _loop_of(b, c, extra=[_unwrap_payload(value_of(c), None, b)])
         return nx_.bb if nx_ is not None else c.bb
     anch = {id(c): anchor(c) for c in sites}
 
@@ -178,12 +187,13 @@ def sink_seq(b, sites, value_of, resolve_vec=True):
     out = []
     for c in sites:
         v = value_of(c)
-        nx = _loop_of(b, c)
+        v_res = _unwrap_payload(v, None, b)
+        nx = _loop_of(b, c, extra=[v_res])
         if nx is None:
             out.append(("elem", peel(v, transparent=ID_CALLS)))
             continue
         elem = ("field", ("downcast", nx.result_term(), "Some"), "0")
-        p = _proj_from(v, elem, None, b.facts)
+        p = _proj_from(v, elem, None, b.facts, body=b)
         if p is None:
             # element reached through a pattern (tuple fields) is not a plain projection
             return None
